@@ -66,6 +66,7 @@ struct Interp {
     ParamSpec specOf(const Op &op) const;
     std::string groupOf(long long g) const;
     bool halted = false;                             // history ended by an accepted undocumented deviation
+    SParam lastSelfParam;                           // content of the object's own parameter handed back by 'selfparam' (taken before the call)
     std::vector<SFrame> lastColModel;               // content intended for each frame of lastCol (recorded while it was built)
     std::vector<ezc3d::DataNS::Frame> lastCol;       // caller's column vector of the last pcol/acol (kept for reuse)
     std::string dir;                                 // scratch directory (must exist)
@@ -86,7 +87,14 @@ struct Interp {
     void run(const Case &c);
     Outcome exec(const Op &op);
     ezc3d::c3d &o() { return *obj; }
-    std::string path(const std::string &stem) const { return dir + "/" + stem; }
+    // where the object's files go. style 0: <dir>/<stem>; 1: <dir>/<stem without extension>.<tag> (several users of one directory whose
+    // paths differ only in the extension); 2: <dir>/<tag>_<stem without extension> (no extension at all; <dir> may contain a dot)
+    int pathStyle = 0; std::string pathTag;
+    std::string path(const std::string &stem) const {
+        if (pathStyle == 0) return dir + "/" + stem;
+        const std::string bare = stem.substr(0, stem.rfind('.'));
+        return pathStyle == 1 ? dir + "/" + bare + "." + pathTag : dir + "/" + pathTag + "_" + bare;
+    }
 };
 
 // classify the currently handled exception; call inside catch(...)
